@@ -85,14 +85,16 @@ structure Good (s : State) : Prop where
   cols : ∀ r ∈ s.log, r.length = 1 + columns s.tags
   ready : s.fileReady = true → s.fileExists = true
   header : s.fileExists = true → s.log ≠ []
+  fin : ∀ p ∈ s.finished, p.1 = encodeRows p.2 ∧ (∀ r ∈ p.2, r ≠ [[]]) ∧
+    (∀ r ∈ p.2, r.length = 1 + columns s.tags) ∧ p.2 ≠ []
 
 theorem good_init (tags : List Tag) : Good (init tags) :=
-  ⟨rfl, by simp [init], by simp [init], by simp [init], by simp [init]⟩
+  ⟨rfl, by simp [init], by simp [init], by simp [init], by simp [init], by simp [init]⟩
 
 theorem good_tags {s : State} (g : Good s) (tags' : List Tag)
     (hk : tags'.map (·.kind) = s.tags.map (·.kind)) : Good { s with tags := tags' } :=
   ⟨g.file_eq, g.writable, by rw [show columns tags' = columns s.tags from columns_of_kinds _ _ hk]; exact g.cols,
-   g.ready, g.header⟩
+   g.ready, g.header, by rw [show columns tags' = columns s.tags from columns_of_kinds _ _ hk]; exact g.fin⟩
 
 theorem good_append {s : State} (g : Good s) (tags' : List Tag)
     (hk : tags'.map (·.kind) = s.tags.map (·.kind)) (r : Row) (txt : List Char)
@@ -104,7 +106,7 @@ theorem good_append {s : State} (g : Good s) (tags' : List Tag)
   rw [writeRow_ok r hr] at hw
   cases hw
   have hc : columns tags' = columns s.tags := columns_of_kinds _ _ hk
-  refine ⟨?_, ?_, ?_, hrd, by simp⟩
+  refine ⟨?_, ?_, ?_, hrd, by simp, by show ∀ p ∈ s.finished, _; rw [hc]; exact g.fin⟩
   · simp [g.file_eq, encodeRows_append, encodeRows]
   · intro r' h'
     rcases List.mem_append.mp h' with h' | h'
@@ -123,7 +125,7 @@ theorem good_step (s : State) (op : Op) (g : Good s) : Good (stepOp s op) := by
     simp only [stepOp]
     split
     · rename_i hex
-      exact ⟨g.file_eq, g.writable, g.cols, fun _ => hex, g.header⟩
+      exact ⟨g.file_eq, g.writable, g.cols, fun _ => hex, g.header, g.fin⟩
     · split
       · rename_i txt hw
         exact good_append g _ (archiveAll_kinds s.tags) _ txt hw (headerRow_length s.tags) true true (fun _ => rfl)
@@ -143,6 +145,18 @@ theorem good_step (s : State) (op : Op) (g : Good s) : Good (stepOp s op) := by
   | sim i v => exact good_tags g _ (updTag_kinds _ _ _ (fun _ => by split <;> rfl))
   | stopSim i => exact good_tags g _ (updTag_kinds _ _ _ (fun _ => rfl))
   | mark i text => exact good_tags g _ (updTag_kinds _ _ _ (fun _ => rfl))
+  | startLow => exact g
+  | stop =>
+    simp only [stepOp]
+    refine ⟨rfl, by simp, by simp, by simp, by simp, ?_⟩
+    intro p hp
+    rcases List.mem_append.mp hp with h | h
+    · exact g.fin p h
+    · split at h
+      · rename_i hex
+        simp at h; subst h
+        exact ⟨g.file_eq, g.writable, g.cols, g.header hex⟩
+      · simp at h
 
 theorem good_run (ops : List Op) : ∀ s, Good s → Good (run s ops) := by
   induction ops with
@@ -165,7 +179,7 @@ theorem columns_run (ops : List Op) : ∀ s, columns (run s ops).tags = columns 
     · split
       · split <;> exact archiveAll_kinds s.tags
       · rfl
-    all_goals exact updTag_kinds _ _ _ (fun _ => by first | rfl | (split <;> rfl))
+    all_goals first | rfl | exact updTag_kinds _ _ _ (fun _ => by first | rfl | (split <;> rfl))
 
 /-- **Read-back.** For every tag list and every history of operations, reading the archive file with the
     dialect it was written with returns exactly the rows that were archived (`log` = header row followed by
@@ -197,6 +211,26 @@ theorem header_first (tags : List Tag) (ops : List Op) (h : (run (init tags) ops
   let g := good_run ops _ (good_init tags)
   g.header (g.ready h)
 
+/-- **Every file the archiver leaves behind** (the runs that were stopped; runs started while the disk-space guard
+    refuses leave no file and get no rows): it starts with a header row, every row has the header's columns, and
+    reading it back returns exactly the rows that were archived into it. -/
+theorem finished_archives_read_back (tags : List Tag) (ops : List Op) (file : List Char) (log : List Row)
+    (h : (file, log) ∈ (run (init tags) ops).finished) :
+    readFile file = .ok log ∧ log ≠ [] ∧ ∀ r ∈ log, r.length = 1 + columns tags := by
+  have g := good_run ops _ (good_init tags)
+  obtain ⟨h1, h2, h3, h4⟩ := g.fin _ h
+  simp only at h1 h2 h3 h4
+  have hc : columns (run (init tags) ops).tags = columns tags := columns_run ops (init tags)
+  refine ⟨by rw [h1]; exact read_encodeRows _ h2, h4, fun r hr => by rw [← hc]; exact h3 r hr⟩
+
+/-- What `read_last_run_archive` opens after a stop is the file of that run, if the run has one. -/
+theorem last_run_is_finished (s : State) (t : List Char) (h : (stepOp s .stop).lastRun = some t) :
+    t = s.file ∧ s.fileExists = true := by
+  simp only [stepOp] at h
+  split at h
+  · rename_i hex; simp at h; exact ⟨h.symm, hex⟩
+  · cases h
+
 /-! ### Non-vacuity: a concrete history with nasty mark texts -/
 
 def demoTags : List Tag :=
@@ -212,6 +246,11 @@ example : (run (init demoTags) demoOps).log =
 
 example : readFile (run (init demoTags) demoOps).file = .ok (run (init demoTags) demoOps).log :=
   archive_reads_back _ _
+
+/-- Two runs, the second one started on a full disk: one file, no rows for the second run. -/
+example : ((run (init demoTags) (demoOps ++ [.stop, .startLow, .row ['3'], .stop])).finished.map (·.2.length),
+    (run (init demoTags) (demoOps ++ [.stop, .startLow, .row ['3'], .stop])).lastRun) = ([3], none) := by
+  decide +kernel
 
 /-- As the code is: the header line evaluates `archive()` too, so a mark set before `on_start` is consumed by
     the header and never reaches a data row (observation, not part of the property). -/
